@@ -10,6 +10,8 @@ after EVERY step of an enumerated history, dataset re-opened from disk each time
   bytes  : single file: new_bytes[:F] == old_bytes[:F] with F = old_len - 8 - old_footer_len read
            from the old trailer; multi-file: every pre-existing data file still present under its
            name with identical bytes (no rewrite / truncate / rename).
+Second family: the same contract on datasets that already hold >= 11 part files and / or whose part numbering has
+holes (row groups removed with remove_row_groups, part names left alone) before the appends.
 """
 import os
 
@@ -423,7 +425,15 @@ def run_bounded(ctx):
         "over 6 codecs x 4 offset kinds.  Checked after every step on a fresh open.  Three cases per history "
         "(aspect = bytes | values | cat).  Written index is observed as a column (index=False) because its "
         "materialisation is a C01 finding; drill+partition appends go through write_row_groups because "
-        "write(append=True) refuses them up front."))
+        "write(append=True) refuses them up front.  ||  SECOND FAMILY (state of the existing dataset): "
+        f"{len(MANY_CONFIGS)} multi-file configurations (hive/drill, partition_on none/p/p,q, datetime index, write|write_row_groups) x "
+        f"{len(MANY_STATES)} dataset states before the first append: original written with EXPLICIT row_group_offsets as 3, 11 or 12 "
+        "row groups (part.0 .. part.10/11: two-digit numbers, >= 11 files) and then none / first / middle / last / "
+        "several row groups removed with ParquetFile.remove_row_groups (default sort_pnames=False), leaving HOLES in the "
+        "part numbering below the maximum (part.1,part.2 / part.0..part.10 without part.5 / part.3..part.11 / ...) x "
+        f"appends {MANY_APPENDS} (quick: half of the two-append histories); expected rows = surviving original "
+        "rows (computed from the offsets and the partition keys) then each batch; every data file present before an "
+        "append must stay present with identical bytes; files_before / part_numbering features are read from the directory."))
     specs = enumerate_specs(ctx.tier, ctx.seed)
     results = pool_map(_worker, specs, chunksize=8)
     for spec, res in zip(specs, results):
